@@ -35,10 +35,17 @@ class CallMixin:
         # per-function call-site override by source text
         text = self.src_text(node.func)
         override = None
-        if st.contract is not None and text in st.contract.calls:
-            override = st.contract.calls[text]
+        root = getattr(self, "root_contract", None)
+        src = st.contract if (st.contract is not None and text in st.contract.calls) else (root if (root is not None and text in root.calls) else None)
+        if src is not None:
+            override = src.calls[text]
             if isinstance(override, str):
                 override = self.registry[override]
+            elif isinstance(override, tuple):
+                import dataclasses
+
+                base_c = self.registry[override[0]]
+                override = dataclasses.replace(base_c, effects=list(base_c.effects) + list(override[1]))
         # evaluate callee and arguments
         outs: List[Out] = []
         if override is not None:
@@ -143,6 +150,12 @@ class CallMixin:
         return self.ev(d, s2)[0].val
 
     def call_function(self, st: State, fi: front.FuncInfo, args: List[Val], kwargs: Dict[str, Val], node, recv_text=None) -> List[Out]:
+        if fi.cls is not None and not fi.is_static and not fi.is_classmethod and args and args[0].z is not None \
+                and not getattr(self, "_in_virtual", False):
+            base_c = self.registry.get(fi.key)
+            subs = [] if (base_c is not None and base_c.assumed) else self.overriding_subclasses(fi)
+            if subs or ("abstractmethod" in fi.decorators and base_c is None):
+                return self.virtual_call(st, fi, subs, args, kwargs, node, recv_text)
         key = fi.key
         c = self.registry.get(key)
         inline_req = st.contract is not None and (key in st.contract.inline or (recv_text and recv_text in st.contract.inline))
@@ -162,7 +175,7 @@ class CallMixin:
                 raise NeedsContract(f"decorated function {fi.key} (@{d})", node)
         if "abstractmethod" in fi.decorators:
             raise NeedsContract(f"abstract method {fi.key} (receiver class not known statically)", node)
-        if fi.cls is not None and not fi.is_static and self.has_override(fi):
+        if fi.cls is not None and not fi.is_static and self.has_override(fi) and not getattr(self, "_in_virtual", False):
             raise NeedsContract(f"{fi.key} is overridden in a subclass; static resolution is not sound", node)
         bound = self.bind_args(st, fi, args, kwargs, node)
         self.inlined[fi.key] = fi.source_hash()
@@ -190,6 +203,61 @@ class CallMixin:
                 raise Unsupported(f"{o.kind} escaping function {fi.key}", node)
         return outs
 
+    def overriding_subclasses(self, fi: front.FuncInfo) -> List[front.FuncInfo]:
+        """Methods in (transitive) subclasses anywhere in pymarkdown/ that override fi."""
+        self.has_override(fi)  # builds the index
+        idx = CallMixin._override_index
+        out = []
+        seen = set()
+        work = [fi.cls.name]
+        while work:
+            c = work.pop()
+            for sub, relpath, meths in idx.get(c, []):
+                if sub in seen:
+                    continue
+                seen.add(sub)
+                work.append(sub)
+                if fi.node.name in meths:
+                    try:
+                        out.append(front.find_function(f"{relpath}::{sub}.{fi.node.name}"))
+                    except KeyError:
+                        pass
+        return out
+
+    def virtual_call(self, st: State, fi, subs, args, kwargs, node, recv_text) -> List[Out]:
+        """Dynamic dispatch on clsof(receiver): one branch per overriding class that is feasible for the receiver,
+        plus the statically resolved method for the remaining classes."""
+        recv = args[0]
+        r = V.r(recv.z)
+        outs: List[Out] = []
+        rest = st
+        for sub in subs:
+            cid = INTERN.class_id(sub.cls.name)
+            br = self.branch(rest, clsof(r) == cid)
+            nxt = None
+            for s2, is_sub in br:
+                if is_sub:
+                    self._in_virtual = True
+                    try:
+                        a2 = [Val(recv.z, th=TH(sub.cls.name))] + args[1:]
+                        outs.extend(self.call_function(s2, sub, a2, kwargs, node, recv_text))
+                    finally:
+                        self._in_virtual = False
+                else:
+                    nxt = s2
+            if nxt is None:
+                return outs
+            rest = nxt
+        # receiver is none of the known overriding classes
+        self._in_virtual = True
+        try:
+            if "abstractmethod" in fi.decorators and self.registry.get(fi.key) is None:
+                raise NeedsContract(f"abstract method {fi.key}: receiver may be an unknown subclass (add a behavioural contract)", node)
+            outs.extend(self.call_function(rest, fi, args, kwargs, node, recv_text))
+        finally:
+            self._in_virtual = False
+        return outs
+
     _override_index: Optional[Dict[str, List[Tuple[str, List[str], List[str]]]]] = None
 
     def has_override(self, fi: front.FuncInfo) -> bool:
@@ -215,8 +283,9 @@ class CallMixin:
                         end = src.find("\nclass ", m.end())
                         body = src[m.end(): end if end != -1 else len(src)]
                         meths = re.findall(r"^    def\s+(\w+)\s*\(", body, re.M)
+                        rel = os.path.relpath(os.path.join(dp, fn), front.REPO_ROOT)
                         for b in bases:
-                            idx.setdefault(b, []).append((cname, bases, meths))
+                            idx.setdefault(b, []).append((cname, rel, meths))
             CallMixin._override_index = idx
         idx = CallMixin._override_index
         target = fi.node.name
@@ -325,26 +394,37 @@ class CallMixin:
     def havoc_modifies(self, st: State, mods: List[str], env: Dict[str, Val], func) -> None:
         for m in mods:
             if m == "*":
+                from .spec import PROTECTED_FIELDS
+
                 for f in list(st.heap.keys()) + [k for k in st.heap0 if k not in st.heap]:
-                    if not f.startswith("$static.const"):
+                    if f not in PROTECTED_FIELDS:
                         st.havoc_field(f)
+                # lists / dicts allocated before the call stay well-formed
                 continue
             if "." in m and not m.startswith("$") and not m.startswith("ns."):
                 # "obj.field": only that object's field is havoc'd
                 objtxt, fld = m.rsplit(".", 1)
                 o = self.eval_spec(st, objtxt, env, func)
                 fld = front.mangle(fld, func.cls.name if func is not None and func.cls is not None else None)
+                if o.z is None:
+                    continue
+                isref = V.is_R(o.z)
+                rr = V.r(o.z)
+
+                def gw(field, sort_prefix, sort):
+                    st.hwrite(field, rr, fresh(sort_prefix, sort), guard=isref)
+
                 if fld == "$list":
-                    st.hwrite("$llen", V.r(o.z), fresh("hl", IntS))
-                    st.hwrite("$litems", V.r(o.z), fresh("hi", z3.ArraySort(IntS, V)))
-                    st.assume(st.hread("$llen", V.r(o.z)) >= 0)
+                    gw("$llen", "hl", IntS)
+                    gw("$litems", "hi", z3.ArraySort(IntS, V))
+                    st.assume(z3.Implies(isref, st.hread("$llen", rr) >= 0))
                 elif fld == "$dict":
-                    st.hwrite("$dlen", V.r(o.z), fresh("hdl", IntS))
-                    st.hwrite("$ddom", V.r(o.z), fresh("hdd", z3.ArraySort(V, z3.BoolSort())))
-                    st.hwrite("$dval", V.r(o.z), fresh("hdv", z3.ArraySort(V, V)))
-                    st.assume(st.hread("$dlen", V.r(o.z)) >= 0)
+                    gw("$dlen", "hdl", IntS)
+                    gw("$ddom", "hdd", z3.ArraySort(V, z3.BoolSort()))
+                    gw("$dval", "hdv", z3.ArraySort(V, V))
+                    st.assume(z3.Implies(isref, st.hread("$dlen", rr) >= 0))
                 else:
-                    st.hwrite(fld, V.r(o.z), fresh("hv_" + fld, V))
+                    gw(fld, "hv_" + fld, V)
             else:
                 st.havoc_field(m)
 
@@ -421,6 +501,10 @@ class CallMixin:
             return
         for text in effects:
             tree = ast.parse(text.strip()).body
+            # an effect on a ghost variable that this proof does not declare is not tracked
+            roots = [n.id for n in ast.walk(tree[0]) if isinstance(n, ast.Name) and n.id.startswith(("trace", "g_"))]
+            if any(r not in st.ghost for r in roots):
+                continue
             s = self.spec_state(st, dict(env), fi)
             s.pure = False
             s.old = old
@@ -465,6 +549,7 @@ class CallMixin:
             saved = dict(st.locals)
             for n, v in zip(names, vars_):
                 st.locals[n] = vint(v)
+            st.no_type_facts = True
             try:
                 guards = []
                 if len(node.args) >= 3:
@@ -479,10 +564,14 @@ class CallMixin:
                 del st.pc[npc:]
             finally:
                 st.locals = saved
+                st.no_type_facts = False
+            # typing facts about values read under the binder hold for every index in range (trusted typing)
+            if side:
+                st.assume(z3.ForAll(vars_, z3.Implies(z3.And(guards), z3.And(side)) if guards else z3.And(side)))
             if fn == "forall":
-                inner = z3.Implies(z3.And(guards + side), body) if (guards or side) else body
+                inner = z3.Implies(z3.And(guards), body) if guards else body
                 return vbool(z3.ForAll(vars_, inner))
-            return vbool(z3.Exists(vars_, z3.And(guards + side + [body])))
+            return vbool(z3.Exists(vars_, z3.And(guards + [body])))
         if fn == "is_exc":
             v = self.ev1(node.args[0], st)
             name = node.args[1].value if isinstance(node.args[1], ast.Constant) else node.args[1].id
